@@ -12,6 +12,7 @@ Inductive outcome :=
   | OEncErr (off : Z)                  (* bionumpy EncodingError, with its offset *)
   | OEncExc                            (* EncodingException *)
   | OUnicode                           (* UnicodeEncodeError *)
+  | OUndec                             (* data was returned but .to_string()/.tolist()/enc.decode raise on it *)
   | OOther.                            (* any other exception *)
 
 Record case := {
@@ -29,7 +30,7 @@ Definition outcome_eqb (a b : outcome) : bool :=
   match a, b with
   | OOk c t, OOk c' t' => zll_eqb c c' && zll_eqb t t'
   | OEncErr o, OEncErr o' => o =? o'
-  | OEncExc, OEncExc | OUnicode, OUnicode | OOther, OOther => true
+  | OEncExc, OEncExc | OUnicode, OUnicode | OOther, OOther | OUndec, OUndec => true
   | _, _ => false
   end.
 Definition is_error (o : outcome) : bool := match o with OOk _ _ => false | _ => true end.
@@ -40,7 +41,7 @@ Definition to_outcome (dst : enc) (r : res) (lens : list nat) : outcome :=
   match r with
   | Ok codes => match decode_enc dst codes with
                 | Some txt => OOk (unflatten lens codes) (unflatten lens txt)
-                | None => OOther            (* .to_string() would raise IndexError *)
+                | None => OUndec            (* .to_string() would raise IndexError *)
                 end
   | EncErr o => OEncErr o
   | EncExc => OEncExc
@@ -105,6 +106,7 @@ Definition spec_ok (c : case) : bool :=
         | Some t => zll_eqb text t && decodes_to (k_dst c) codes t
         | None => false              (* generator error: codes outside the source alphabet *)
         end
+    | OUndec => false                (* data that does not decode at all is not "the same text" *)
     | _ => true
     end.
 
